@@ -365,6 +365,7 @@ example (cmds : List Cmd) :
       | .init => [.de i]
       | .mod => [.mvarg]
       | .act => [.de i]
-      | .id => [.mv i 1]) World.init cmds).c := reachable_inv _ cmds
+      | .id => [.mv i 1]
+      | .hbeat => [.de i]) World.init cmds).c := reachable_inv _ cmds
 
 end NV.C08
